@@ -449,6 +449,24 @@ def _post_circuit_free_symbols(mon, call):
     if idx != sorted(idx):
         mon.violation("circuit-free-symbols-order", f"{what}: {got} is not in first-appearance order (operation indices {idx})")
         return
+    # within the symbols that one operation introduces, "first appearance" is the order in which that operation itself
+    # reports them (its own report taken as given): walking the operations and their reported symbols, dropping
+    # repetitions, gives the circuit's list - the same list in every interpreter run, whatever the hash seed
+    try:
+        walked = []
+        for op in c.operations:
+            for x in op.free_symbols:
+                if x not in walked:
+                    walked.append(x)
+    except Exception:
+        walked = None
+    if walked is not None and set(walked) == set(got) and len(walked) == len(got):
+        if walked != got:
+            mon.violation("circuit-free-symbols-order", f"{what}: reported {got}; the operations, asked one by one, "
+                          f"report their symbols in the order {walked}")
+            return
+        if any(len([x for x in s if first[x] == i]) >= 2 for i, s in enumerate(per_op)):
+            mon.ok("Circuit.free_symbols[one operation introduces several symbols]")
     if (not got) != all(not _atoms(p) for op in c.operations for p in _op_params(op)):
         mon.violation("circuit-free-symbols-empty", f"{what}: {got}")
         return
